@@ -8,7 +8,9 @@ import (
 	"go/types"
 	"os"
 	"path/filepath"
+	"os/exec"
 	"runtime/debug"
+	"time"
 	"sort"
 	"strings"
 	"sync"
@@ -154,8 +156,63 @@ func (o *Obligation) query() string {
 
 func (v *Verifier) discharge(obls []*Obligation, dir string, timeoutS int, thorough bool, jobs int) {
 	os.MkdirAll(dir, 0o755)
-	var wg sync.WaitGroup
-	sem := make(chan struct{}, jobs)
+	names := make([]string, len(obls))
+	for i, o := range obls {
+		n := fmt.Sprintf("q%04d_%s", i, san(o.Name))
+		if len(n) > 120 {
+			n = n[:120]
+		}
+		names[i] = n
+	}
+	runPhase := func(phase int, todo []int, par int) []int {
+		var wg sync.WaitGroup
+		sem := make(chan struct{}, par)
+		var mu sync.Mutex
+		var left []int
+		for _, i := range todo {
+			o := obls[i]
+			wg.Add(1)
+			sem <- struct{}{}
+			go func(i int, o *Obligation) {
+				defer wg.Done()
+				defer func() { <-sem }()
+				q := ""
+				if phase == 1 {
+					q = o.query()
+				}
+				res := solve(q, dir, names[i], timeoutS, thorough, phase)
+				if o.Kind == "requires-sat" {
+					// expected sat: the precondition is not contradictory
+					switch res.Status {
+					case "sat":
+						res.Status = "unsat"
+						res.Model = ""
+					case "unsat":
+						res.Status = "sat"
+						res.Raw = "precondition is unsatisfiable (vacuous contract)"
+					}
+				}
+				definite := res.Status == "unsat" || res.Status == "sat"
+				if phase == 1 && (!definite || thorough) {
+					mu.Lock()
+					left = append(left, i)
+					mu.Unlock()
+					if !thorough {
+						o.Result = res
+					}
+					return
+				}
+				o.Result = res
+				if res.Status == "unsat" {
+					os.Remove(filepath.Join(dir, names[i]+".smt2"))
+				}
+			}(i, o)
+		}
+		wg.Wait()
+		sort.Ints(left)
+		return left
+	}
+	var todo []int
 	for i, o := range obls {
 		if o.Result.Status != "" {
 			continue
@@ -164,35 +221,127 @@ func (v *Verifier) discharge(obls []*Obligation, dir string, timeoutS int, thoro
 			o.Result = SolverResult{Status: "unsat", Backend: "syntactic"}
 			continue
 		}
+		todo = append(todo, i)
+	}
+	// phase 0: one incremental z3 process per function (push/pop per obligation)
+	if os.Getenv("GOVC_NO_INCREMENTAL") == "" {
+		todo = v.incremental(obls, todo, jobs, names, dir)
+	}
+	left := runPhase(1, todo, jobs)
+	if len(left) > 0 {
+		runPhase(2, left, max(1, jobs/4))
+	}
+}
+
+// incremental discharges the obligations of each function in one solver
+// process: assertions are fed in order, each obligation is checked between
+// push and pop.  Anything not answered "unsat"/"sat" is left to the
+// stand-alone phases.
+func (v *Verifier) incremental(obls []*Obligation, todo []int, jobs int, names []string, dir string) []int {
+	groups := map[*Ctx][]int{}
+	var order []*Ctx
+	for _, i := range todo {
+		c := obls[i].ctx
+		if _, ok := groups[c]; !ok {
+			order = append(order, c)
+		}
+		groups[c] = append(groups[c], i)
+	}
+	var wg sync.WaitGroup
+	sem := make(chan struct{}, jobs)
+	var mu sync.Mutex
+	var left []int
+	// split large groups into chunks so that one big function does not serialise the run
+	type chunk struct {
+		c   *Ctx
+		idx []int
+	}
+	var chunks []chunk
+	for _, c := range order {
+		idx := groups[c]
+		sort.SliceStable(idx, func(a, b int) bool { return obls[idx[a]].nAssert < obls[idx[b]].nAssert })
+		for len(idx) > 40 {
+			chunks = append(chunks, chunk{c, idx[:40]})
+			idx = idx[40:]
+		}
+		chunks = append(chunks, chunk{c, idx})
+	}
+	for gi, ch := range chunks {
+		c, idx := ch.c, ch.idx
 		wg.Add(1)
 		sem <- struct{}{}
-		go func(i int, o *Obligation) {
+		go func(gi int, c *Ctx, idx []int) {
 			defer wg.Done()
 			defer func() { <-sem }()
-			q := o.query()
-			name := fmt.Sprintf("q%04d_%s", i, san(o.Name))
-			if len(name) > 120 {
-				name = name[:120]
+			sort.SliceStable(idx, func(a, b int) bool { return obls[idx[a]].nAssert < obls[idx[b]].nAssert })
+			var b strings.Builder
+			b.WriteString(c.preamble())
+			b.WriteString("(set-option :timeout 1000)\n")
+			done := 0
+			for _, i := range idx {
+				o := obls[i]
+				for ; done < o.nAssert; done++ {
+					b.WriteString("(assert " + c.assert[done] + ")\n")
+				}
+				b.WriteString("(push 1)\n")
+				for _, a := range o.extra {
+					b.WriteString("(assert " + a + ")\n")
+				}
+				b.WriteString("(assert " + and(o.guard, not(o.goal)) + ")\n(check-sat)\n(pop 1)\n")
 			}
-			res := solve(q, dir, name, timeoutS, thorough)
-			if o.Kind == "requires-sat" {
-				// expected sat: the precondition is not contradictory
-				switch res.Status {
-				case "sat":
-					res.Status = "unsat"
-					res.Model = ""
-				case "unsat":
-					res.Status = "sat"
-					res.Raw = "precondition is unsatisfiable (vacuous contract)"
+			file := filepath.Join(dir, fmt.Sprintf("inc%04d.smt2", gi))
+			os.WriteFile(file, []byte(b.String()), 0o644)
+			start := time.Now()
+			cmd := exec.Command("z3-new", fmt.Sprintf("-T:%d", 20+5*len(idx)), file)
+			out, _ := cmd.Output()
+			ms := time.Since(start).Milliseconds()
+			var answers []string
+			bad := false
+			for _, ln := range strings.Split(string(out), "\n") {
+				ln = strings.TrimSpace(ln)
+				if strings.HasPrefix(ln, "WARNING") {
+					continue
+				}
+				switch ln {
+				case "sat", "unsat", "unknown", "timeout":
+					answers = append(answers, ln)
+				case "":
 				default:
-					// unknown satisfiability of the precondition: accept quantified preconditions as non-vacuous only if proven; report unknown
+					if strings.HasPrefix(ln, "(error") {
+						bad = true
+					}
 				}
 			}
-			o.Result = res
-			if res.Status == "unsat" {
-				os.Remove(filepath.Join(dir, name+".smt2"))
+			mu.Lock()
+			defer mu.Unlock()
+			for k, i := range idx {
+				o := obls[i]
+				if bad || k >= len(answers) {
+					left = append(left, i)
+					continue
+				}
+				a := answers[k]
+				if o.Kind == "requires-sat" {
+					if a == "sat" {
+						o.Result = SolverResult{Status: "unsat", Backend: "z3-new-5.1.0(incremental)", Ms: ms / int64(len(idx))}
+						continue
+					}
+					left = append(left, i)
+					continue
+				}
+				if a == "unsat" {
+					o.Result = SolverResult{Status: "unsat", Backend: "z3-new-5.1.0(incremental)", Ms: ms / int64(len(idx))}
+				} else {
+					left = append(left, i)
+				}
 			}
-		}(i, o)
+			if !bad {
+				os.Remove(file)
+			}
+		}(gi, c, idx)
 	}
 	wg.Wait()
+	sort.Ints(left)
+	return left
 }
+
